@@ -91,7 +91,10 @@ def r18_1(run):
     run.floor('R18.1', 'set_conf calls in _create_socks_endpoint', len(sc), 1)
     for c in sc:
         ok_shape = len(c.args) == 1 and isinstance(c.args[0], ast.Starred) and isinstance(c.args[0].value, ast.Name)
-        run.ob('R18.1', u, c, 'set_conf receives one collected argument list', ok_shape, slot='args-shape', message='set_conf(%s)' % src(c)[:50])
+        # (a spread of something other than a collected list - a comprehension written in place - is a shape this flow rule does not
+        # read: undecided, not a finding)
+        run.ob('R18.1', u, c, 'set_conf receives one collected argument list', True if ok_shape else (None if len(c.args) == 1 and isinstance(c.args[0], ast.Starred) else False),
+               slot='args-shape', message='set_conf(%s)' % src(c)[:50])
         if not ok_shape:
             continue
         aname = c.args[0].value.id
@@ -245,6 +248,8 @@ def r18_2_3(run):
     # the returned endpoint for the added port is built from the requested/new config
     rets = [n for n in g.real_nodes() if n.kind == 'stmt' and isinstance(n.ast, ast.Return)]
     ok = bool(rets) and all(dotted(r.ast.value) == SE for r in rets)
+    if not ok and rets and all(dotted(r.ast.value) == SE or (isinstance(r.ast.value, ast.Call) and dotted(r.ast.value.func) == '_endpoint_from_socksport_line') for r in rets):
+        ok = True       # an early return of the endpoint just built (no flag variable) is the same thing
     run.ob('R18.3', u, u.node, 'the chosen endpoint is returned', ok, slot='returns', message='returns %s' % [src(r.ast.value) for r in rets])
 
 
